@@ -68,6 +68,7 @@ class ClientPlan(object):
         self.last_fwd_kind = None
         self.n_calls = 0
         self.last_x = None        # base point of the previous driver call
+        self.last_drv = None
         self.last_base = None     # base points of the previous forward evaluation
 
 
@@ -104,6 +105,11 @@ def make_client_config(rng, focus, idx):
         _use_second_input(rng, prog)
     if rng.random() < 0.45:
         rec = {'kind': 'nd', 'vals': [point(rng, n) for n in n_in]}
+        if rng.random() < 0.2:
+            # an integer array as recording point (numpy.array([1, 2, 3])): the results must not
+            # depend on the data type the graph was recorded with
+            rec['dtype'] = 'int'
+            rec['vals'] = [[float(rng.randint(-2, 2)) for _ in range(n)] for n in n_in]
     else:
         D, P = rand_DP(rng)
         rec = {'kind': 'utpm', 'D': D, 'P': P, 'vals': [utpm_values(rng, D, P, n) for n in n_in]}
@@ -265,6 +271,7 @@ def make_run(focus, seed):
 
     def emit_rev(c, bad=False):
         step = {'op': 'rev', 'c': c.idx, 'subseed': rng.randrange(1 << 30), 'bad': bad,
+                'reuse_seed': (not bad) and rng.random() < 0.5,
                 'fault': None if bad else maybe_fault('rev')}
         c.last_call = step
         plan.append(step)
@@ -294,8 +301,12 @@ def make_run(focus, seed):
         name = rng.choice(names)
         M = 1 if len(osh) == 0 else osh[0]
         # sometimes the previous driver's point again, with other vectors v, w or another driver
-        x = list(c.last_x) if (c.last_x is not None and rng.random() < 0.3) else point(rng, N)
+        same_x = c.last_x is not None and rng.random() < 0.3
+        x = list(c.last_x) if same_x else point(rng, N)
         c.last_x = x
+        if same_x and c.last_drv in names and rng.random() < 0.5:
+            name = c.last_drv       # same driver, same point, other vectors
+        c.last_drv = name
         step = {'op': 'drv', 'c': c.idx, 'name': name, 'x': list(x), 'v': None, 'w': None,
                 'xlist': False}
         if name == 'gradient' and rng.random() < 0.25:
@@ -417,6 +428,19 @@ def make_run(focus, seed):
                 hints.append((c.idx, 'drv'))
             return
         # sealed
+        if c.n_calls >= 2 and ptr[0] != c.idx and rng.random() < 0.04:
+            # drop the graph and record the same program again (a loop that builds a new graph
+            # per data set): the old graph becomes garbage
+            plan.append({'op': 'reset', 'c': c.idx})
+            c.state = 'void'
+            c.ip = 0
+            c.slots = {}
+            c.have_fwd = False
+            c.last_call = None
+            c.last_fwd_kind = None
+            c.n_calls = 0
+            return
+        c.n_calls += 1
         driver_ok = clients_cfg[c.idx]['workload'] == 'driver'
         table = [('fwd', W['fwd']), ('rev', W['rev'] if c.have_fwd else 0.0),
                  ('drv', W['drv'] if driver_ok else 0.0),
